@@ -257,7 +257,7 @@ func (fr *Frame) finishPanics() {
 			}
 			rs = append(rs, v)
 		}
-		fr.rets = append(fr.rets, retState{rec, rs})
+		fr.rets = append(fr.rets, retState{rec, rs, token.NoPos})
 	}
 	un := after.Clone()
 	un.Assume(still)
@@ -296,7 +296,96 @@ type FuncResult struct {
 	Assumptions []string
 }
 
+// VerifyLemma proves a lemma over spec functions: requires ==> ensures for all
+// values of its parameters, with the induction hypothesis at v-1 (for v >= 1).
+func VerifyLemma(L *Loaded, name string, ct *Contract) (res *FuncResult) {
+	res = &FuncResult{Func: name}
+	if len(ct.Ensures) == 0 {
+		res.Error = "lemma without ensures"
+		return
+	}
+	cfn := L.SSA.Func(ct.Ensures[0].GoName)
+	if cfn == nil {
+		res.Error = "lemma clause function missing"
+		return
+	}
+	vc := NewVC(L, cfn, ct)
+	res.VC = vc
+	defer func() {
+		if r := recover(); r != nil {
+			if e, ok := r.(vcError); ok {
+				res.Error = e.msg
+				res.Obligations = vc.obls
+				return
+			}
+			panic(r)
+		}
+	}()
+	vc.noFrame = true
+	st := &State{reach: True, cells: map[*Cell]Term{}, heaps: map[string]Term{}, armed: map[*ssa.Defer]Term{}}
+	a0 := vc.Fresh("alloc0", SInt)
+	vc.alloc0 = a0
+	vc.heapSorts["$alloc"] = SInt
+	st.heaps["$alloc"] = a0
+	st.Assume(Le(IntLit(1), a0))
+	fr := vc.newFrame(cfn, nil)
+	vals := map[string]Val{}
+	for _, p := range cfn.Params {
+		t := vc.Fresh("in."+p.Name(), vc.specialSort(p.Type()))
+		vals[p.Name()] = TV(t)
+		if wf := vc.wfValue(t, p.Type(), st); wf.S != "true" {
+			st.Assume(wf)
+		}
+	}
+	fr.attachAxioms(st)
+	lookupWith := func(m map[string]Val) func(cp ClauseParam, old bool) Val {
+		return func(cp ClauseParam, old bool) Val {
+			if v, ok := m[cp.Name]; ok {
+				return v
+			}
+			fail("lemma %s: cannot bind %s", name, cp.Name)
+			return Val{}
+		}
+	}
+	vc.entry = st.Clone()
+	for _, cl := range ct.Requires {
+		st.Assume(fr.evalClauseWith(cl, lookupWith(vals), st, nil))
+	}
+	if ct.Induction != "" {
+		v, ok := vals[ct.Induction]
+		if !ok || v.T.Sort != SInt {
+			fail("lemma %s: induction variable %s is not an integer parameter", name, ct.Induction)
+		}
+		prev := map[string]Val{}
+		for k, x := range vals {
+			prev[k] = x
+		}
+		prev[ct.Induction] = TV(vc.Define("ih", Sub(v.T, IntLit(1))))
+		var reqs, enss []Term
+		for _, cl := range ct.Requires {
+			reqs = append(reqs, fr.evalClauseWith(cl, lookupWith(prev), st, nil))
+		}
+		for _, cl := range ct.Ensures {
+			enss = append(enss, fr.evalClauseWith(cl, lookupWith(prev), st, nil))
+		}
+		st.Assume(Implies(And(append([]Term{Le(IntLit(1), v.T)}, reqs...)...), And(enss...)))
+	}
+	st.reach = vc.Define("pre", st.reach)
+	for _, cl := range ct.Ensures {
+		g := fr.evalClauseWith(cl, lookupWith(vals), st, nil)
+		vc.Oblige("lemma", cl.Label, token.NoPos, st, g, cl.Src)
+	}
+	o := vc.Oblige("vacuity", "pre-sat", token.NoPos, st, False, "lemma hypotheses must be satisfiable")
+	o.MustFail = true
+	res.Obligations = vc.obls
+	res.Assumptions = sortedKeys(vc.assumptions)
+	return
+}
+
 func VerifyFunction(L *Loaded, name string, ct *Contract, prop string) (res *FuncResult) {
+	if strings.HasPrefix(name, "lemma:") {
+		return VerifyLemma(L, name, ct)
+	}
 	res = &FuncResult{Func: name}
 	fn := L.Func(name)
 	if fn == nil {
@@ -339,23 +428,7 @@ func VerifyFunction(L *Loaded, name string, ct *Contract, prop string) (res *Fun
 		st.Assume(vc.wfValue(t, fv.Type(), st))
 		st.Assume(Not(Eq(PArr(t), IntLit(0))))
 	}
-	// axioms about opaque spec functions: attached to the first opaque
-	// function they mention, so they are emitted exactly when it is used
-	for _, acl := range L.CF.Axioms {
-		t := fr.evalClauseWith(acl, nil, st, nil)
-		vc.assumptions["axiom:"+acl.Label+" ("+acl.Src+")"] = true
-		attached := false
-		for _, tok := range strings.FieldsFunc(vc.expandDefs(t.S), tokenSplit) {
-			if g, ok := vc.gdefs[tok]; ok && g.Decl != "" && strings.HasPrefix(tok, "spec.") {
-				g.Axioms = append(g.Axioms, vc.expandDefs(t.S))
-				attached = true
-				break
-			}
-		}
-		if !attached {
-			fail("axiom %s mentions no opaque spec function", acl.Label)
-		}
-	}
+	fr.attachAxioms(st)
 	// global invariants
 	for _, gcl := range L.CF.Globals {
 		st.Assume(fr.evalClauseWith(gcl, func(cp ClauseParam, old bool) Val {
@@ -401,7 +474,11 @@ func VerifyFunction(L *Loaded, name string, ct *Contract, prop string) (res *Fun
 				if len(fr.rets) > 1 {
 					lab = fmt.Sprintf("%s@ret%d", cl.Label, i)
 				}
-				vc.Oblige("post", lab, fn.Pos(), r.st, g, cl.Src)
+				rp := r.pos
+				if !rp.IsValid() {
+					rp = fn.Pos()
+				}
+				vc.Oblige("post", lab, rp, r.st, g, cl.Src)
 			}
 			for _, gcl := range L.CF.Globals {
 				g := fr.evalClauseWith(gcl, nil, r.st, nil)
@@ -434,6 +511,28 @@ func VerifyFunction(L *Loaded, name string, ct *Contract, prop string) (res *Fun
 	res.Callees = sortedKeys(vc.callees)
 	res.Assumptions = sortedKeys(vc.assumptions)
 	return
+}
+
+func (fr *Frame) attachAxioms(st *State) {
+	vc := fr.vc
+	L := vc.L
+	// axioms about opaque spec functions: attached to the first opaque
+	// function they mention, so they are emitted exactly when it is used
+	for _, acl := range L.CF.Axioms {
+		t := fr.evalClauseWith(acl, nil, st, nil)
+		vc.assumptions["axiom:"+acl.Label+" ("+acl.Src+")"] = true
+		attached := false
+		for _, tok := range strings.FieldsFunc(vc.expandDefs(t.S), tokenSplit) {
+			if g, ok := vc.gdefs[tok]; ok && g.Decl != "" && strings.HasPrefix(tok, "spec.") {
+				g.Axioms = append(g.Axioms, vc.expandDefs(t.S))
+				attached = true
+				break
+			}
+		}
+		if !attached {
+			fail("axiom %s mentions no opaque spec function", acl.Label)
+		}
+	}
 }
 
 // globalTouched: did the function write any global-variable heap?
